@@ -215,6 +215,20 @@ tzm_open(const char *fn)
 	}
 	/* turn offset into native endianness */
 	m->off = be32toh(m->off);
+	/* the name pool must lie within the file and end in a \nul, the
+	 * key area behind it consists of whole words and ends in a \nul
+	 * too, tzm_find() relies on those to stop scanning */
+	with (const size_t dz = fz - sizeof(*m)) {
+		if (UNLIKELY(m->off > dz)) {
+			goto mun;
+		} else if (UNLIKELY((dz - m->off) % sizeof(znoff_t))) {
+			goto mun;
+		} else if (dz > m->off &&
+			   UNLIKELY(!m->off || m->data[m->off - 1U] ||
+				    m->data[dz - 1U])) {
+			goto mun;
+		}
+	}
 	/* also put fd and map size into m */
 	m->flags[0U] = (znoff_t)fd;
 	m->flags[1U] = (znoff_t)st->st_size;
@@ -249,8 +263,13 @@ tzm_find(tzmap_t m, const char *mname)
 /* lookup zname for MNAME */
 	const znoff_t *sp = (const void*)tzm_mnames(m);
 	const znoff_t *ep = sp + tzm_mname_size(m) / sizeof(*sp) - 1U;
+	const znoff_t *const lp = ep;
 	const char *zns = tzm_znames(m);
 
+	if (UNLIKELY(tzm_mname_size(m) < 2U * sizeof(*sp))) {
+		/* not a single record */
+		return NULL;
+	}
 	/* do a bisection now */
 	do {
 		const char *mp = mname;
@@ -296,6 +315,13 @@ tzm_find(tzmap_t m, const char *mname)
 			if (gtp) {
 				/* use upper half */
 				sp = op + 1U;
+			} else if (UNLIKELY(op > lp)) {
+				/* key without an offset, corrupt file */
+				return NULL;
+			} else if (UNLIKELY((be32toh(*op) >> 8U) >=
+					    tzm_zname_size(m))) {
+				/* offset beyond the name pool, corrupt file */
+				return NULL;
 			} else {
 				/* found it */
 #if defined DATEUTILS_VERIF
